@@ -21,10 +21,10 @@ pub fn def() -> PropDef {
         rule: "case = (field in {Fq,Fr}, a, b with a relation, exponent e); operands from canonical boundaries, stored-limb (Montgomery) boundary patterns, powers of two, small, uniform, and derived pairs whose *stored product / square* is a boundary pattern (b = t/a, a = sqrt(t)) or whose Montgomery quotient digits are boundary limbs; non-trivial = some operand is from a boundary/limb class or the pair is related (not uniform x uniform x independent); distinct by (field,a,b,e)",
         required: crate::runner::req(&[
             "field:q", "field:r", "rel:equal", "rel:negation", "rel:stored-sum-2^256", "add:stored-carry", "add:stored-sum=p",
-            "mul:final-sub", "a:limb-mont", "a:limb-canon", "a:canon-boundary", "inverse:zero", "rel:product-stored-target", "rel:inverse-stored-target", "a:stored-pattern", "rel:square-stored-target", "rel:quotient-digit-target", "mul:quotient-digit-zero", "mul:quotient-digit-ff", "sqr:pre=2^256+small",
+            "mul:final-sub", "a:limb-mont", "a:limb-canon", "a:canon-boundary", "inverse:zero", "rel:product-stored-target", "rel:inverse-stored-target", "rel:square-quotient-target", "sqr:quotient-digit-zero", "a:stored-pattern", "rel:square-stored-target", "rel:quotient-digit-target", "mul:quotient-digit-zero", "mul:quotient-digit-ff", "sqr:pre=2^256+small",
         ]),
-        enumerate: None,
-        enumerate_note: "",
+        enumerate: Some(enumerate),
+        enumerate_note: "exhaustive over the stored-limb alphabet: every value whose four Montgomery limbs come from {0, 1, 2^63, 2^64-1, 2^64-2, limb_i(p), limb_i(p)+-1} (8^4 per field) as operand of every unary operation and of a op a [quick + thorough]; every ordered pair over the 4-letter alphabet {0, 2^64-1, limb_i(p), limb_i(p)-1} (4^8 = 65 536 pairs per field) [thorough]",
         also_dbg: false,
         assumptions: super::TRUSTED,
         max_shrink_iters: 400,
@@ -39,8 +39,7 @@ macro_rules! field_case {
     ($T:ty, $m:expr, $of_big:ident, $to_big:ident, $s:expr, $info:expr, $key:expr, $ctx:expr) => {{
         let m: Md = $m;
         let p = m.p();
-        let (fa, fb, rel) = felt_pair($s, m);
-        let fe = felt($s, m);
+        let (fa, fb, rel, fe) = operands($s, m);
         let (a, b, e) = (fa.v.clone(), fb.v.clone(), fe.v.clone());
         $info.class(format!("field:{}", m.name()));
         $info.class(format!("a:{}", fa.class));
@@ -81,6 +80,12 @@ macro_rules! field_case {
             }
             if (0..4).any(|i| digit(i) == u64::MAX) {
                 $info.class("mul:quotient-digit-ff");
+            }
+            // quotient digits of the square a*a
+            let sq = (((&sa * &sa) % r256) * crate::gen::neg_inv_p(m)) % r256;
+            let dq = sq.to_u64_digits();
+            if (1..4).any(|i| dq.get(i).copied().unwrap_or(0) == 0) && !sa.is_zero() {
+                $info.class("sqr:quotient-digit-zero");
             }
             // pre-subtraction value of the square a*a
             let us = mont_pre(&sa, &sa, m);
@@ -181,10 +186,93 @@ macro_rules! field_case {
     }};
 }
 
+/// explicit mode (enumerated sub-space): genome = 0xFE, field, then the 32-byte STORED (Montgomery) representatives of a
+/// and b, big-endian; otherwise the usual generated pair
+fn operands(s: &mut Src, m: Md) -> (crate::gen::Felt, crate::gen::Felt, &'static str, crate::gen::Felt) {
+    if s.peek_explicit() {
+        let p = m.p();
+        let sa = zp::from_be(&s.bytes(32)) % p;
+        let sb = zp::from_be(&s.bytes(32)) % p;
+        let a = (sa * m.rinv()) % p;
+        let b = (sb * m.rinv()) % p;
+        let e = b.clone();
+        return (
+            crate::gen::Felt { v: a, class: "limb-mont" },
+            crate::gen::Felt { v: b, class: "limb-mont" },
+            "enumerated-stored-limbs",
+            crate::gen::Felt { v: e, class: "limb-mont" },
+        );
+    }
+    let (fa, fb, rel) = felt_pair(s, m);
+    let fe = felt(s, m);
+    (fa, fb, rel, fe)
+}
+
+/// all stored values whose four limbs come from the alphabet (reduced below p), as explicit genomes
+fn enumerate(t: crate::runner::Tier) -> Vec<Vec<u8>> {
+    let mut out = vec![];
+    for (fi, m) in [Md::Q, Md::R].iter().enumerate() {
+        let pl: Vec<u64> = m.p().to_u64_digits();
+        let alpha = |i: usize| -> Vec<u64> { vec![0, 1, 1u64 << 63, u64::MAX, u64::MAX - 1, pl[i], pl[i].wrapping_add(1), pl[i].wrapping_sub(1)] };
+        let enc = |l: &[u64; 4]| -> Vec<u8> {
+            let mut b = vec![];
+            for i in (0..4).rev() {
+                b.extend_from_slice(&l[i].to_be_bytes());
+            }
+            b
+        };
+        // unary sub-space: every 4-limb pattern over the 8-letter alphabet as a (squared, inverse, pow, neg, ...), b = a
+        let mut singles: Vec<[u64; 4]> = vec![];
+        for l3 in alpha(3) {
+            for l2 in alpha(2) {
+                for l1 in alpha(1) {
+                    for l0 in alpha(0) {
+                        singles.push([l0, l1, l2, l3]);
+                    }
+                }
+            }
+        }
+        for a in singles.iter() {
+            let mut g = vec![0xFE, 1 - fi as u8];
+            g.extend_from_slice(&enc(a));
+            g.extend_from_slice(&enc(a));
+            out.push(g);
+        }
+        // binary sub-space (thorough): all pairs over a 4-letter alphabet {0, 2^64-1, limb of p, limb of p - 1} per limb: 4^8 pairs
+        if t == crate::runner::Tier::Thorough {
+            let small = |i: usize| -> Vec<u64> { vec![0, u64::MAX, pl[i], pl[i].wrapping_sub(1)] };
+            let mut v: Vec<[u64; 4]> = vec![];
+            for l3 in small(3) {
+                for l2 in small(2) {
+                    for l1 in small(1) {
+                        for l0 in small(0) {
+                            v.push([l0, l1, l2, l3]);
+                        }
+                    }
+                }
+            }
+            for a in v.iter() {
+                for b in v.iter() {
+                    let mut g = vec![0xFE, 1 - fi as u8];
+                    g.extend_from_slice(&enc(a));
+                    g.extend_from_slice(&enc(b));
+                    out.push(g);
+                }
+            }
+        }
+    }
+    out
+}
+
 pub fn check(g: &[u8], ctx: &Ctx) -> Result<Info, Failure> {
     let mut s = Src::new(g);
     let mut info = Info::default();
     let mut key = Key::new();
+    let explicit = g.first() == Some(&0xFE);
+    if explicit {
+        s.u8();
+        s.set_explicit(true);
+    }
     if s.bool() {
         let (la, _lb, a, _b) = field_case!(Fq, Md::Q, fq_of_big, big_of_fq, &mut s, info, key, ctx);
         let p = zp::q();
